@@ -9,7 +9,10 @@ import (
 	"strings"
 
 	"github.com/jotaen/klog/klog"
+	"github.com/jotaen/klog/klog/app/cli"
+	cliutil "github.com/jotaen/klog/klog/app/cli/util"
 	"github.com/jotaen/klog/klog/service"
+	"github.com/jotaen/klog/klog/service/period"
 
 	"klogverif/clidrv"
 	"klogverif/fw"
@@ -360,6 +363,7 @@ func c13Sizes() []int {
 		s = append(s, len(c13ComboCache[f]))
 	}
 	s = append(s, 1<<13+1<<14) // large-N sort family
+	s = append(s, c13BulkCount()) // enumerated documents x query matrix
 	return s
 }
 
@@ -371,6 +375,7 @@ func init() {
 			"--date/--since/--until/--after/--before for every record date +-1 and thinned pairs, --period for every year/month/quarter/ISO week containing or adjacent to a record date, " +
 			"all 14 relative shortcuts under clocks at every record date + {0,+-1,+-7,+-31,92,366} days, tag queries derived from the file's own tags (bare, other case, value unquoted/quoted/upper-cased/wrong, pairs) plus absent ones, 6 entry-type spellings; " +
 			"all pairs tag x type, date x tag and date x type (dates thinned 1/9) and triples (1/41); each also with --sort asc and desc on a fixed stride; plus ALL 2^13+2^14 date assignments of 13/14 records over two dates for the sort itself. " +
+			"plus BULK = every document of two records (dates {d, d+1} in the three orders same/ascending/descending; record summary in {none, #a, #b=1}; every sequence of <=2 of 6 entries with/without tags of all kinds) x a matrix of " + fmt.Sprint(len(c13BulkQueries())) + " queries (5 tag queries, 5 entry types, 4 date clauses, all tag x type pairs, date x tag x type triples, --sort), command struct on the real context. " +
 			"A case = (file, flags, clock); distinct by that triple.",
 		Assumptions: []string{
 			"independent predicate on the reference denotation (specmodel parser, tag scanner, calendar); selection read back from `klog json` through klog.Run (real flag decoding) and compared field by field (C20's comparison)",
@@ -385,12 +390,20 @@ func init() {
 					c13SortN(c, i)
 					continue
 				}
+				if sp.fam == len(c13Files)+1 {
+					c13Bulk(c, i)
+					continue
+				}
 				c13Run(c, sp.fam, c13ComboCache[sp.fam][i], i)
 			}
 		},
 		Replay: func(c *fw.Ctx, raw json.RawMessage) {
 			var cs c13Case
 			if json.Unmarshal(raw, &cs) != nil {
+				return
+			}
+			if cs.File == -2 {
+				c13Bulk(c, cs.Now[0])
 				return
 			}
 			if cs.File < 0 {
@@ -557,4 +570,196 @@ func c13SortN(c *fw.Ctx, i int) {
 		}
 	}
 	c.Outcome("sort-n")
+}
+
+
+// ---- BULK: enumerated two-record documents x a fixed query matrix (cli.Json struct on the real context)
+
+var c13BulkEntries = []string{"1h", "1h #a", "-30m #b=1", "8:00 - 9:00 #a #b=2", "9:00 - ?", "2h #B"}
+var c13BulkSummaries = []string{"", "#a\n", "note #b=1\n"}
+
+func c13BulkRecCount() int {
+	return len(c13BulkSummaries) * (1 + len(c13BulkEntries) + len(c13BulkEntries)*len(c13BulkEntries))
+}
+
+func c13BulkCount() int { return c13BulkRecCount() * c13BulkRecCount() * 3 }
+
+func c13BulkRec(date string, k int) string {
+	ne := len(c13BulkEntries)
+	out := date + "\n" + c13BulkSummaries[k%len(c13BulkSummaries)]
+	k /= len(c13BulkSummaries)
+	switch {
+	case k == 0:
+	case k <= ne:
+		out += "    " + c13BulkEntries[k-1] + "\n"
+	default:
+		k -= ne + 1
+		out += "    " + c13BulkEntries[k/ne] + "\n    " + c13BulkEntries[k%ne] + "\n"
+	}
+	return out
+}
+
+func c13BulkDoc(i int) string {
+	n := c13BulkRecCount()
+	order := i % 3
+	i /= 3
+	d1, d2 := "2021-03-31", "2021-04-01"
+	switch order {
+	case 1:
+		d2 = d1 // same date twice
+	case 2:
+		d1, d2 = d2, d1 // descending
+	}
+	return c13BulkRec(d1, i%n) + "\n" + c13BulkRec(d2, i/n)
+}
+
+type c13BulkQuery struct {
+	name    string
+	clauses []c13Clause
+	filter  cliutil.FilterArgs
+	sort    string
+}
+
+var c13BulkQueriesCache []c13BulkQuery
+
+func c13BulkQueries() []c13BulkQuery {
+	if c13BulkQueriesCache != nil {
+		return c13BulkQueriesCache
+	}
+	type tq struct {
+		arg string
+		ref []sm.Tag
+	}
+	tags := []tq{{"a", []sm.Tag{{Name: "a"}}}, {"b", []sm.Tag{{Name: "b"}}}, {"b=1", []sm.Tag{{Name: "b", Value: "1"}}}, {"B=2", []sm.Tag{{Name: "b", Value: "2"}}}, {"a+b", []sm.Tag{{Name: "a"}, {Name: "b"}}}}
+	type yq struct {
+		name string
+		et   service.EntryType
+		ok   func(e sm.Entry) bool
+	}
+	types := []yq{
+		{"range", service.ENTRY_TYPE_RANGE, func(e sm.Entry) bool { return e.Kind == sm.KRange }},
+		{"open-range", service.ENTRY_TYPE_OPEN_RANGE, func(e sm.Entry) bool { return e.Kind == sm.KOpenRange }},
+		{"duration", service.ENTRY_TYPE_DURATION, func(e sm.Entry) bool { return e.Kind == sm.KDuration }},
+		{"duration-positive", service.ENTRY_TYPE_POSITIVE_DURATION, func(e sm.Entry) bool { return e.Kind == sm.KDuration && e.Dur.Mins >= 0 }},
+		{"duration-negative", service.ENTRY_TYPE_NEGATIVE_DURATION, func(e sm.Entry) bool { return e.Kind == sm.KDuration && e.Dur.Mins < 0 }},
+	}
+	d1 := sm.DayNumber(sm.Date{Y: 2021, M: 3, D: 31})
+	k1, _ := klog.NewDate(2021, 3, 31)
+	k2, _ := klog.NewDate(2021, 4, 1)
+	per, perr := period.NewPeriodFromPatternString("2021-04")
+	if perr != nil {
+		harnessFatal("C13 bulk: period 2021-04 rejected: %v", perr)
+	}
+	type dq struct {
+		name string
+		ok   func(sm.Record) bool
+		set  func(*cliutil.FilterArgs)
+	}
+	inf := 1 << 30
+	dates := []dq{
+		{"--date 2021-03-31", between(d1, d1), func(f *cliutil.FilterArgs) { f.Date = k1 }},
+		{"--since 2021-04-01", between(d1+1, inf), func(f *cliutil.FilterArgs) { f.Since = k2 }},
+		{"--before 2021-04-01", between(-inf, d1), func(f *cliutil.FilterArgs) { f.Before = k2 }},
+		{"--period 2021-04", between(d1+1, d1+30), func(f *cliutil.FilterArgs) { f.Period = per }},
+	}
+	mkTag := func(t tq) (c13Clause, []klog.Tag) {
+		var kts []klog.Tag
+		for _, part := range strings.Split(t.arg, "+") {
+			kt, err := klog.NewTagFromString(part)
+			if err != nil {
+				harnessFatal("C13 bulk: tag %q rejected", part)
+			}
+			kts = append(kts, kt)
+		}
+		return c13Clause{kind: "tag", recTags: t.ref}, kts
+	}
+	var qs []c13BulkQuery
+	for _, t := range tags {
+		cl, kts := mkTag(t)
+		qs = append(qs, c13BulkQuery{name: "--tag " + t.arg, clauses: []c13Clause{cl}, filter: cliutil.FilterArgs{Tags: kts}})
+		for _, y := range types {
+			y := y
+			ycl := c13Clause{kind: "type", entryOK: func(_ sm.Record, e sm.Entry) bool { return y.ok(e) }}
+			qs = append(qs, c13BulkQuery{name: "--tag " + t.arg + " --entry-type " + y.name, clauses: []c13Clause{cl, ycl}, filter: cliutil.FilterArgs{Tags: kts, EntryType: y.et}})
+		}
+	}
+	for _, y := range types {
+		y := y
+		ycl := c13Clause{kind: "type", entryOK: func(_ sm.Record, e sm.Entry) bool { return y.ok(e) }}
+		qs = append(qs, c13BulkQuery{name: "--entry-type " + y.name, clauses: []c13Clause{ycl}, filter: cliutil.FilterArgs{EntryType: y.et}})
+	}
+	for di, d := range dates {
+		dcl := c13Clause{kind: "date", recOK: d.ok}
+		f := cliutil.FilterArgs{}
+		d.set(&f)
+		qs = append(qs, c13BulkQuery{name: d.name, clauses: []c13Clause{dcl}, filter: f})
+		// triples: this date clause x one tag x one type (rotating)
+		for ti, t := range tags {
+			y := types[(ti+di)%len(types)]
+			cl, kts := mkTag(t)
+			ycl := c13Clause{kind: "type", entryOK: func(_ sm.Record, e sm.Entry) bool { return y.ok(e) }}
+			f3 := cliutil.FilterArgs{Tags: kts, EntryType: y.et}
+			d.set(&f3)
+			qs = append(qs, c13BulkQuery{name: d.name + " --tag " + t.arg + " --entry-type " + y.name, clauses: []c13Clause{dcl, cl, ycl}, filter: f3})
+		}
+	}
+	qs = append(qs, c13BulkQuery{name: "--sort asc", sort: "asc"}, c13BulkQuery{name: "--sort desc", sort: "desc"},
+		c13BulkQuery{name: "--tag a --sort desc", clauses: []c13Clause{{kind: "tag", recTags: []sm.Tag{{Name: "a"}}}}, filter: cliutil.FilterArgs{Tags: []klog.Tag{klog.NewTagOrPanic("a", "")}}, sort: "desc"})
+	c13BulkQueriesCache = qs
+	return qs
+}
+
+func c13Bulk(c *fw.Ctx, i int) {
+	text := c13BulkDoc(i)
+	ref := sm.Parse(text)
+	if ref.Verdict != sm.Valid {
+		c.Outcome("bulk-invalid-doc") // two open ranges in one record
+		return
+	}
+	dir := fw.Scratch()
+	home := clidrv.Home("home")
+	path := clidrv.WriteFile(dir, "c13b.klg", text)
+	in := fileArgs(path)
+	for qi, q := range c13BulkQueries() {
+		c.Eval(1)
+		c.Nontrivial(fw.HashMix(fw.HashString(q.name), uint64(i)+1<<40))
+		cs := c13Case{File: -2, Args: []string{q.name, text}, Now: [3]int{i, qi, 0}}
+		want := c13Apply(ref.Records, q.clauses)
+		r := clidrv.Exec(home, clidrv.Opts{Now: fixedNow}, &cli.Json{FilterArgs: q.filter, SortArgs: cliutil.SortArgs{Sort: q.sort}, InputFilesArgs: in})
+		if r.Panicked {
+			c.Violation("panic:"+fw.PanicSite(r.Stack), cs, fmt.Sprintf("`klog json %s` panicked: %v\n%s", q.name, r.PanicVal, r.Stack))
+			return
+		}
+		if r.Code != 0 {
+			c.Violation("filter-failed", cs, fmt.Sprintf("`klog json %s` failed: exit %d %s", q.name, r.Code, r.Err))
+			return
+		}
+		exp := expectFromRef(want)
+		out := strings.TrimSuffix(r.Stdout, "\n")
+		var why string
+		if q.sort == "" {
+			why = c20CheckRecords(out, exp)
+		} else {
+			asc := q.sort == "asc"
+			sort.SliceStable(exp, func(a, b int) bool {
+				if asc {
+					return exp[a].Date < exp[b].Date
+				}
+				return exp[a].Date > exp[b].Date
+			})
+			why = c20CheckSorted(out, exp)
+		}
+		if why != "" {
+			c.Violation("selection", cs, fmt.Sprintf("`klog json %s` on\n%s\n%s\nexpected %d records: %s\noutput: %s", q.name, text, why, len(want), canonRef(want), truncateStr(out, 1200)))
+			return
+		}
+		if len(want) == 0 {
+			c.Count("bulk_selects_nothing", 1)
+		} else if canonRef(want) == canonRef(ref.Records) {
+			c.Count("bulk_selects_everything", 1)
+		} else {
+			c.Count("bulk_selects_part", 1)
+		}
+	}
+	c.Outcome("bulk")
 }
